@@ -159,7 +159,10 @@ def _call(c):
             arg = np.array(bits, dtype=form)
         return int(cpl.bits_to_int(arg))
     if k == "i2b":
-        return [int(x) for x in cpl.int_to_bits(c["num"], c["d"])]
+        num = c["num"]
+        if (num + c["d"]) % 3 == 1 and 0 <= num < 2 ** 63:
+            num = np.int64(num)
+        return [int(x) for x in cpl.int_to_bits(num, c["d"])]
     if k == "br":
         variant = (sum(c["n"]) + len(c["n"]) + c["rule"]) % 5
         if variant == 1:
@@ -176,6 +179,16 @@ def _call(c):
             n = np.array(c["n"])
         rule, form = c["rule"], c["form"]
         w = len(c["n"])
+        # the rule number as the caller happens to hold it: a Python int, or a NumPy integer scalar (an element of
+        # np.arange(256), a value read from an integer array) when it fits
+        pick = (rule + 3 * sum(c["n"]) + w) % 4
+        if form not in ("bits_nks", "bits_default"):
+            if pick == 1 and rule < 2 ** 63:
+                rule = np.int64(rule)
+            elif pick == 2 and rule < 256:
+                rule = np.uint8(rule)
+            elif pick == 3 and rule < 2 ** 31:
+                rule = np.int32(rule)
         if form == "func_nks":
             return int(cpl.binary_rule(n, rule, scheme=NKS()))
         if form == "func_default":
